@@ -293,6 +293,22 @@ class LaneMachine:
             if isinstance(cur, tuple) and cur[0] == 'int':
                 self.vars[l['id']] = ('int', cur[1] + self.ival(e['rhs']) if e['op'] == '+=' else cur[1] | self.ival(e['rhs']))
                 return
+        if k == 'assign' and e.get('op') in ('>>=', '<<='):
+            l = strip(e['lhs'])
+            cur = self.vars.get(l.get('id')) if l.get('k') == 'ref' else None
+            if isinstance(cur, tuple) and cur[0] == 'int':
+                c = self.ival(e['rhs'])
+                self.vars[l['id']] = ('int', (cur[1] >> c) if e['op'] == '>>=' else (cur[1] << c))
+                return
+            if isinstance(cur, tuple) and cur[0] == 'lanes':
+                c = self.ival(e['rhs'])
+                a = list(cur[1])
+                if c % 8:
+                    self.vars[l['id']] = ('lanes', [0] * len(a) if all(x == 0 for x in a) else [MIX] * len(a))
+                    return
+                sft = c // 8
+                self.vars[l['id']] = ('lanes', (a[sft:] + [0] * min(sft, len(a))) if e['op'] == '>>=' else ([0] * sft + a)[:len(a)])
+                return
         if k == 'call':
             self.call(e)
             return
